@@ -50,8 +50,65 @@ def for_model(code, env):
     return walk(code)
 
 
+_TS_CACHE = {}
+
+
+def read_timestamp(text):
+    """what `TimestampType.from_micheline_value` makes of a string node whose bytes are `text`: `unforge_micheline` decodes it
+    (UTF-8), `optimize_timestamp` reads it; None if either raises.  The instance of the model's parameter `Env.readTimestamp`."""
+    if text not in _TS_CACHE:
+        from pytezos.michelson.forge import optimize_timestamp
+        try:
+            _TS_CACHE[text] = int(optimize_timestamp(text.decode()))
+        except Exception:      # noqa: whatever it raises, UNPACK swallows it
+            _TS_CACHE[text] = None
+    return _TS_CACHE[text]
+
+
+def timestamp_words(code):
+    """12th environment word: `hex(text):seconds|x,…` for the texts of the program an UNPACK could read as a timestamp"""
+    if '"UNPACK"' not in json.dumps(code):
+        return '-'
+    rows = []
+    for text in gen_interp.texts_of(code):
+        v = read_timestamp(text)
+        rows.append(f'{text.hex()}:{"x" if v is None else v}')
+    return ','.join(rows) or '-'
+
+
+_SIG_CACHE = {}
+
+
+def check_signature(key, sig, msg):
+    """what CheckSignatureInstruction computes for the triple: True if `Key.verify` returns, False if it raises ValueError (None:
+    anything else happens — the triple is then left out of the table and the real run will differ from the model)"""
+    t = (key, sig, msg)
+    if t not in _SIG_CACHE:
+        from pytezos.crypto.key import Key
+        try:
+            Key.from_encoded_key(key).verify(signature=sig, message=bytes.fromhex(msg))
+            _SIG_CACHE[t] = True
+        except ValueError:
+            _SIG_CACHE[t] = False
+        except Exception:      # noqa
+            _SIG_CACHE[t] = None
+    return _SIG_CACHE[t]
+
+
+def signature_words(code):
+    """13th environment word: `hex(key):hex(signature):hex(message):0|1,…` — the instance of the model's parameter `Hashes.checkSig`"""
+    if '"CHECK_SIGNATURE"' not in json.dumps(code):
+        return '-'
+    rows = []
+    for k, s, m in gen_interp.sig_triples(code):
+        v = check_signature(k, s, m)
+        if v is not None:
+            rows.append(f'{k.encode().hex()}:{s.encode().hex()}:{m or "-"}:{int(v)}')
+    return ','.join(rows) or '-'
+
+
 def prog_line(code, env):
-    return f'{FUEL} | {env_words(env)} | {mich.to_line(for_model(code, env))}'
+    return f'{FUEL} | {env_words(env)} {timestamp_words(code)} {signature_words(code)} | {mich.to_line(for_model(code, env))}'
 
 
 def parse_model(out):
